@@ -137,7 +137,7 @@ def grep_forbidden():
   return bad
 
 
-def run_model(lines, timeout=1800):
+def run_model(lines, timeout=3600):
   """send JSON lines to the Lean driver; returns parsed answers (same length)."""
   if not lines:
     return []
